@@ -1185,6 +1185,121 @@ func c02ModelCases(r *Run, rng *RNG, n int) {
 		}
 		return L(I(0))
 	}
+	// (5) ResolveDeep over arbitrary reference graphs of arrays: cycles, shared subtrees, missing objects
+	{
+		drng := rng.Fork(55)
+		for i := 0; i < n/2+20; i++ {
+			nobj := drng.Range(1, 8)
+			bomb := i%17 == 0 // every level lists the next one ten times
+			bodies := []string{"<< /Type /Catalog /Pages 2 0 R >>", "<< /Type /Pages /Kids [] /Count 0 >>"}
+			var objsV []V
+			var gen func(depth int, self int) (string, V)
+			gen = func(depth int, self int) (string, V) {
+				switch k := drng.Intn(6); {
+				case k <= 1:
+					v := drng.Intn(100)
+					return fmt.Sprint(v), L(I(0), I(v))
+				case k <= 3 || depth >= 2:
+					t := 3 + drng.Intn(nobj+1) // at times one beyond the last object
+					if drng.Chance(2, 3) && self+1 <= 2+nobj {
+						t = drng.Range(self+1, 2+nobj) // a later object: no cycle
+					}
+					return fmt.Sprintf("%d 0 R", t), L(I(1), I(t))
+				default:
+					var ps []string
+					var vs []V
+					for c := drng.Range(0, 3); c > 0; c-- {
+						p, v := gen(depth+1, self)
+						ps, vs = append(ps, p), append(vs, v)
+					}
+					return "[" + strings.Join(ps, " ") + "]", L(I(2), L(vs...))
+				}
+			}
+			for k := 3; k <= 2+nobj; k++ {
+				var ps []string
+				var vs []V
+				if bomb {
+					for c := 0; c < 10; c++ {
+						t := k + 1
+						ps, vs = append(ps, fmt.Sprintf("%d 0 R", t)), append(vs, L(I(1), I(t)))
+					}
+					if k == 2+nobj {
+						ps, vs = []string{"1"}, []V{L(I(0), I(1))}
+					}
+				} else {
+					for c := drng.Range(0, 4); c > 0; c-- {
+						p, v := gen(0, k)
+						ps, vs = append(ps, p), append(vs, v)
+					}
+				}
+				if !bomb && drng.Chance(1, 8) {
+					// an object that is a bare number, or a bare reference
+					if drng.Bool() {
+						bodies = append(bodies, "5")
+						objsV = append(objsV, L(I(k), L(I(0), I(5))))
+					} else {
+						t := drng.Range(3, 2+nobj)
+						bodies = append(bodies, fmt.Sprintf("%d 0 R", t))
+						objsV = append(objsV, L(I(k), L(I(1), I(t))))
+					}
+					continue
+				}
+				bodies = append(bodies, "["+strings.Join(ps, " ")+"]")
+				objsV = append(objsV, L(I(k), L(I(2), L(vs...))))
+			}
+			if bomb && nobj < 7 {
+				continue // too small to pass the budget; the random graphs cover the small ones
+			}
+			path := tmpFile(r, ".pdf", c02RawPDF(bodies, ""))
+			root, rootV := gen(1, 2)
+			if drng.Bool() || bomb {
+				root, rootV = "3 0 R", L(I(1), I(3))
+			}
+			var enc func(o core.Object) V
+			enc = func(o core.Object) V {
+				switch x := o.(type) {
+				case core.Int:
+					return L(I(0), I(int(x)))
+				case core.IndirectRef:
+					return L(I(1), I(x.Number))
+				case core.Array:
+					vs := VL{}
+					for _, e := range x {
+						vs = append(vs, enc(e))
+					}
+					return L(I(2), vs)
+				}
+				return L(I(99))
+			}
+			got := RPanic()
+			func() {
+				defer func() { recover() }()
+				rd, err := reader.Open(path)
+				if err != nil {
+					got = L(I(7))
+					return
+				}
+				defer rd.Close()
+				obj, err := core.NewParser(strings.NewReader(root + " ")).ParseObject()
+				if err != nil {
+					got = L(I(8))
+					return
+				}
+				res, err := rd.ResolveDeep(obj)
+				if err != nil {
+					got = errV
+				} else {
+					got = L(I(0), enc(res))
+				}
+			}()
+			kind := "random"
+			if bomb {
+				kind = "shared-subtrees"
+			}
+			r.Case(L(I(5), L(objsV...), I(1<<20), rootV), got, "resolve-deep:"+kind, nobj >= 3)
+			os.Remove(path)
+		}
+	}
 	// (0) page trees as arbitrary reference graphs
 	for i := 0; i < n; i++ {
 		nobj := rng.Range(2, 12)
